@@ -4,4 +4,5 @@ CONSTANTS
   MaxFaults = 3
   TwoTimeouts = TRUE
   Extra = {"json503un"}
+  Repaired = FALSE
 CHECK_DEADLOCK FALSE
